@@ -327,6 +327,34 @@ class Index:
                 seen += 1
         return None
 
+    def literal_node(self, modname: str, expr: ast.AST, cls: Optional["ClassInfo"] = None, depth: int = 0) -> Optional[ast.AST]:
+        """Like const_node, for tables: the literal list / tuple / set / dict (or constant) an expression stands for, written in
+        place, wrapped in frozenset() / set() / tuple() / list(), or hoisted into a module- or class-level name."""
+        if isinstance(expr, (ast.Constant, ast.List, ast.Tuple, ast.Set, ast.Dict)):
+            return expr
+        if depth > 4:
+            return None
+        if isinstance(expr, ast.Call) and isinstance(expr.func, ast.Name) and expr.func.id in ("frozenset", "set", "tuple", "list") and len(expr.args) == 1:
+            return self.literal_node(modname, expr.args[0], cls, depth + 1)
+        if isinstance(expr, ast.Name):
+            v = self.module_assigns.get(modname, {}).get(expr.id)
+            return self.literal_node(modname, v, cls, depth + 1) if v is not None else None
+        if isinstance(expr, ast.Attribute) and isinstance(expr.value, ast.Name):
+            owner = None
+            if expr.value.id in ("self", "cls") and cls is not None:
+                owner = cls
+            else:
+                q = self.resolve(modname, expr.value)
+                owner = self.classes.get(q) if q else None
+            seen = 0
+            while owner is not None and seen < 6:
+                if expr.attr in owner.class_attrs:
+                    return self.literal_node(owner.unit.modname, owner.class_attrs[expr.attr], owner, depth + 1)
+                nxt = next((b for b in owner.bases if b and b in self.classes), None)
+                owner = self.classes.get(nxt) if nxt else None
+                seen += 1
+        return None
+
     def find_method(self, cls_qual: str, name: str) -> Optional[FuncInfo]:
         for q in self.mro(cls_qual):
             c = self.classes.get(q)
